@@ -188,6 +188,38 @@ func compareResults(got []storage.ListResult, want []modelPlan) string {
 	return ""
 }
 
+// compareAsSets is the comparison for the CosmosDB fake, which evaluates neither ORDER BY nor (with a limit) which
+// entries come first: the returned entries must be distinct, each equal to its model plan, and - without a limit -
+// exactly the wanted set; with a limit exactly min(limit, n) of them.
+func compareAsSets(got []storage.ListResult, want []modelPlan, limit int) string {
+	byName := map[string]modelPlan{}
+	for _, m := range want {
+		byName[m.name] = m
+	}
+	seen := map[string]bool{}
+	for _, r := range got {
+		m, ok := byName[r.Name]
+		if !ok {
+			return fmt.Sprintf("entry %q was returned but is not among the wanted plans", r.Name)
+		}
+		if seen[r.Name] {
+			return fmt.Sprintf("entry %q was returned twice", r.Name)
+		}
+		seen[r.Name] = true
+		if r.ID != m.id || r.GroupID != m.group || r.State == nil || r.State.Status != m.status || !r.SubmitTime.Equal(m.submit) {
+			return fmt.Sprintf("entry %s differs from the stored plan (id/group/status/submit time)", m.name)
+		}
+	}
+	n := len(want)
+	if limit > 0 && limit < n {
+		n = limit
+	}
+	if len(got) != n {
+		return fmt.Sprintf("returned %d entries, want %d", len(got), n)
+	}
+	return ""
+}
+
 // checkSearchConfig runs every query against one store configuration. only != nil restricts to one query (replay).
 func checkSearchConfig(t *testing.T, cfg searchConfig, only *searchQuery) (found []*EnumFound, queries int) {
 	add := func(q searchQuery, rule, sig, msg string) {
@@ -199,6 +231,7 @@ func checkSearchConfig(t *testing.T, cfg searchConfig, only *searchQuery) (found
 		found = append(found, &EnumFound{V: Violation{Property: "C15", Rule: rule, Signature: sig, Msg: fmt.Sprintf("%s plans=%v %s: %s", cfg.Vault, cfg.Plans, q, msg)},
 			Input: map[string]any{"config": cfg, "query": q}})
 	}
+	weak := false // CosmosDB over its fake: only what the fake evaluates is compared (see compareAsSets)
 	defer func() {
 		if r := recover(); r != nil {
 			msg := fmt.Sprint(r)
@@ -216,6 +249,7 @@ func checkSearchConfig(t *testing.T, cfg searchConfig, only *searchQuery) (found
 		worker.Set(pool)
 		ctx := bctx.Background()
 		f := factoryByName(cfg.Vault)
+		weak = cfg.Vault != "sqlite"
 		reg := storageRegistry()
 		v, err := f.new(ctx, reg)
 		if err != nil {
@@ -273,6 +307,10 @@ func checkSearchConfig(t *testing.T, cfg searchConfig, only *searchQuery) (found
 					add(q, "exists-wrong", fmt.Sprintf("%s:want-%v", cfg.Vault, want), fmt.Sprintf("Exists returned %v, want %v", got, want))
 				}
 			case "list":
+				if weak && q.Limit > 0 {
+					queries--
+					continue // the fake panics on the int-typed @limit parameter the reader passes (it expects int64): test double, not decidable
+				}
 				ch, err := v.List(ctx, q.Limit)
 				if err != nil {
 					add(q, "list-failed", cfg.Vault, err.Error())
@@ -285,6 +323,14 @@ func checkSearchConfig(t *testing.T, cfg searchConfig, only *searchQuery) (found
 					return
 				}
 				want := refSearch(model, searchQuery{}, groups)
+				if weak {
+					if len(r.errs) > 0 {
+						add(q, "list-stream-error", cfg.Vault, r.errs[0].Error())
+					} else if d := compareAsSets(r.items, want, q.Limit); d != "" {
+						add(q, "list-wrong", cfg.Vault+":set", d)
+					}
+					continue
+				}
 				if q.Limit > 0 && len(want) > q.Limit {
 					want = want[:q.Limit]
 				}
@@ -294,6 +340,10 @@ func checkSearchConfig(t *testing.T, cfg searchConfig, only *searchQuery) (found
 					add(q, "list-wrong", cfg.Vault+":"+diffClass(d), d)
 				}
 			case "search-cancel", "list-cancel":
+				if weak && q.Kind == "search-cancel" {
+					queries--
+					continue // group/status filters: not evaluated by the fake
+				}
 				cctx, cancel := context.WithCancel(ctx)
 				var ch chan storage.Stream[storage.ListResult]
 				var err error
@@ -324,6 +374,9 @@ func checkSearchConfig(t *testing.T, cfg searchConfig, only *searchQuery) (found
 				if len(r.items) > len(want) {
 					add(q, "search-wrong", cfg.Vault+":cancel", fmt.Sprintf("%d entries returned, the store holds %d plans", len(r.items), len(want)))
 				}
+				if weak {
+					continue
+				}
 				for i := range r.items {
 					if i < len(want) && r.items[i].ID != want[i].id {
 						add(q, "search-wrong", cfg.Vault+":cancel", "entries out of order after cancellation")
@@ -331,6 +384,10 @@ func checkSearchConfig(t *testing.T, cfg searchConfig, only *searchQuery) (found
 					}
 				}
 			case "search":
+				if weak && (len(q.Groups)+len(q.Statuses) > 0 || len(q.IDs) == 0) {
+					queries--
+					continue // the fake pager answers id queries only
+				}
 				fl := storage.Filters{}
 				for _, i := range q.IDs {
 					if i < 0 {
@@ -369,6 +426,14 @@ func checkSearchConfig(t *testing.T, cfg searchConfig, only *searchQuery) (found
 					return
 				}
 				want := refSearch(model, q, groups)
+				if weak {
+					if len(r.errs) > 0 {
+						add(q, "search-stream-error", cfg.Vault+":"+errClass(r.errs[0]), r.errs[0].Error())
+					} else if d := compareAsSets(r.items, want, 0); d != "" {
+						add(q, "search-wrong", cfg.Vault+":ids:set", d)
+					}
+					continue
+				}
 				if len(r.errs) > 0 {
 					add(q, "search-stream-error", cfg.Vault+":"+errClass(r.errs[0]), r.errs[0].Error())
 				} else if d := compareResults(r.items, want); d != "" {
@@ -427,8 +492,8 @@ func enumC15(env *EnumEnv, it *WorkItem) *EnumResult {
 	}
 	idx := 0
 	for _, f := range vaultFactories() {
-		if f.name != "sqlite" {
-			continue // the CosmosDB fake answers id queries only (no Cosmos SQL engine here): see the evidence note
+		if f.name != "sqlite" && env.Tier != "thorough" && false {
+			continue
 		}
 		expired := false
 		for L := 0; L <= maxN && !expired; L++ {
@@ -470,7 +535,7 @@ func enumC15(env *EnumEnv, it *WorkItem) *EnumResult {
 			rec(nil)
 		}
 	}
-	res.Notes = append(res.Notes, "CosmosDB: group/status Search cannot be decided here (the fake pager only answers id queries and there is no Cosmos SQL engine in the sandbox); this check covers sqlite")
+	res.Notes = append(res.Notes, "CosmosDB (over the package's fake client): Exists, Search by ids, List without a limit (as sets) and stream termination are checked; List with a limit makes the fake itself panic (it asserts an int64 parameter, the reader passes int); group/status filters and the order cannot be decided here (the fake pager evaluates neither and there is no Cosmos SQL engine in the sandbox)")
 	return res
 }
 
